@@ -114,31 +114,55 @@ def gen_case(rng, boundary=None):
             ops.append(("E", FINISH_FN, t, 0, 0))
     if boundary is None and len(ops) >= 3 and rng.random() < 0.25:
         close = rng.randrange(1, len(ops))          # another thread's mcount_trace_finish closes the pipe before this op
+    ops2, sync2 = None, None
+    if boundary is None and end is None and close is None and rng.random() < 0.2 and not (stack and stack[-1] in NOTRACE):
+        # the task exec()s a second traced image (same tid, new session): TASK_START for a known tid, flush_old_shmem
+        ops2, st2, t2 = [], [], t + 1000
+        for _ in range(rng.randrange(1, 12)):
+            t2 += rng.randrange(1, 50)
+            if st2 and (rng.random() < 0.45 or len(st2) >= 6 or st2[-1] in NOTRACE):
+                st2.pop()
+                ops2.append(("X", t2, rng.randrange(1 << 40)))
+            else:
+                k = rng.choice([x for x in range(NFUNC) if x != FINISH_FN]) if with_args else rng.choice([0, 7, 8, 10, 11, 12])
+                st2.append(k)
+                ops2.append(("E", k, t2, rng.randrange(1 << 48), rng.randrange(1 << 32)))
+        sync2 = [rng.random() < 0.3 for _ in ops2]
     sync = [rng.random() < 0.3 for _ in ops]
     if end == "signal" and ops[-1][0] == "E":
         sync[-1] = False        # (that entry hook only runs mtd_dtor: it is not an op of the model)
     e = rng.randrange(0, 9) if mode == "kill" else None
-    return {"cap": cap, "ops": ops, "sync": sync, "mode": mode, "e": e, "args": with_args, "end": end, "close": close}
+    return {"cap": cap, "ops": ops, "sync": sync, "mode": mode, "e": e, "args": with_args, "end": end, "close": close,
+            "ops2": ops2, "sync2": sync2}
 
 
-def case_script(c):
+def case_script(c, second=False):
+    """lines of the producer script and the driver's actions; with an exec the first image's script ends with EXEC
+    and the second image's script (returned by a second call) carries the kill / the way of dying"""
     lines, actions = [], []
-    n = len(c["ops"])
-    for i, o in enumerate(c["ops"]):
-        if c["sync"][i]:
+    has2 = bool(c.get("ops2"))
+    ops = c["ops2"] if second else c["ops"]
+    sync = c["sync2"] if second else c["sync"]
+    n = len(ops)
+    last_image = second or not has2
+    for i, o in enumerate(ops):
+        if sync[i]:
             lines.append("S")
             actions.append("R")
-        if c.get("close") == i:
+        if c.get("close") == i and not second:
             lines.append("CLOSE")
         if c.get("end") == "signal" and i == n - 1:
             lines.append("SIG")
-        if c["mode"] == "kill" and i == n - 1:
+        if c["mode"] == "kill" and i == n - 1 and last_image:
             lines.append("S")
             actions.append("K%d" % c["e"])
         if o[0] == "E":
             lines.append("E %d %d %d %d" % (o[1], o[2], o[3], o[4]))
         else:
             lines.append("X %d %d" % (o[1], o[2]))
+    if not last_image:
+        lines.append("EXEC @SCRIPT2@")
+        return lines, actions
     if c.get("end") == "tend":
         lines.append("TEND")
     if c["mode"] == "kill":
@@ -156,6 +180,13 @@ def run_case(rec_exe, prod_exe, workdir, c, idx):
     os.makedirs(d)
     lines, actions = case_script(c)
     script = os.path.join(d, "script.txt")
+    if c.get("ops2"):
+        lines2, actions2 = case_script(c, second=True)
+        script2 = os.path.join(d, "script2.txt")
+        with open(script2, "w") as f:
+            f.write("\n".join(lines2) + "\n")
+        lines = [l.replace("@SCRIPT2@", script2) for l in lines]
+        actions = actions + actions2
     with open(script, "w") as f:
         f.write("\n".join(lines) + "\n")
     env = {k: v for k, v in os.environ.items() if not k.startswith("UFTRACE_")}
@@ -199,9 +230,9 @@ def model_ops(c):
     return ops
 
 
-def coq_ops(c, f0):
+def coq_ops(c, f0, second=False):
     out, stack = [], []
-    for o in model_ops(c):
+    for o in ((c.get("ops2") or []) if second else model_ops(c)):
         if o[0] == "E":
             k = o[1]
             stack.append(k)
@@ -219,13 +250,14 @@ def coq_case(c, r, f0):
     flush = (end == "trigger") if end else c["mode"] in ("segv", "abrt")
     nmo = len(model_ops(c))
     return ("{| tc_single := " + coq.coq_bool(SINGLE_BUMP) + "; tc_cap := %d; tc_ops := %s; tc_sync := [%s]; tc_kill := %s; tc_flush := %s; "
-            "tc_close := %d; tc_end := %d; "
+            "tc_close := %d; tc_end := %d; tc_ops2 := %s; tc_sync2 := [%s]; "
             "tc_shl := %s; tc_shf := %s; tc_wl := %s; tc_file := %s |}" % (
                 c["cap"], coq_ops(c, f0), "; ".join(coq.coq_bool(b) for b in c["sync"][:nmo]),
                 ("Some %d" % c["e"]) if c["mode"] == "kill" else "None",
                 coq.coq_bool(flush),
                 c["close"] if c.get("close") is not None else nmo + 9,
                 {None: 0, "trigger": 1, "signal": 1, "tend": 1 if c.get("close") is not None else 2}[end],
+                coq_ops(c, f0, second=True), "; ".join(coq.coq_bool(b) for b in (c.get("sync2") or [])),
                 coq_nats(r["shl"]), coq_bytes(r["shf"]), coq_nats(r["wl"]), coq_bytes(r["file"])))
 
 
@@ -239,7 +271,7 @@ def eval_store(ctx, cases, results, f0, name="cases_store"):
     defs = "Definition cases : list tcase := [\n%s\n].\n" % ";\n".join(
         coq_case(c, r, f0) for c, r in zip(cases, results))
     res = coq.run_cases(ctx, name, PRE, defs, [
-        ("mismatch", "bad_indices agrees cases 0"),
+        ("mismatch", "bad_indices (fun tc => agrees tc && agrees_f tc) cases 0"),
         ("violations", "bad_indices ok_case cases 0"),
         ("dark", "bad_indices (fun tc => negb (is_dark (tc_state tc))) cases 0"),
     ])
@@ -257,7 +289,8 @@ def model_obs(ctx, c, r, f0):
 
 def case_json(c, r=None):
     j = {"cap": c["cap"], "ops": [list(o) for o in c["ops"]], "sync": c["sync"], "mode": c["mode"], "e": c["e"],
-         "args": c["args"], "end": c.get("end"), "close": c.get("close")}
+         "args": c["args"], "end": c.get("end"), "close": c.get("close"),
+         "ops2": [list(o) for o in c["ops2"]] if c.get("ops2") else None, "sync2": c.get("sync2")}
     if r is not None:
         j["impl"] = {"status": r.get("status"), "shl": r.get("shl"), "shf": r.get("shf"), "wl": r.get("wl"),
                      "file": r.get("file", b"").hex()}
@@ -266,7 +299,8 @@ def case_json(c, r=None):
 
 def case_from_json(j):
     return {"cap": j["cap"], "ops": [tuple(o) for o in j["ops"]], "sync": j["sync"], "mode": j["mode"], "e": j["e"],
-            "args": j["args"], "end": j.get("end"), "close": j.get("close")}
+            "args": j["args"], "end": j.get("end"), "close": j.get("close"),
+            "ops2": [tuple(o) for o in j["ops2"]] if j.get("ops2") else None, "sync2": j.get("sync2")}
 
 
 def build_store(ctx, objdir):
@@ -315,13 +349,25 @@ def store_cases(ctx):
                           "e": 0 if mode == "kill" else None, "directed": "norecord-innermost"})
     cases += shrink_cases()
     cases += finish_cases()
+    # exec: the second image is killed inside its very first hook call (before / after its REC_START + flag, i.e. before
+    # or after TASK_START made the recorder flush the old image's buffer), later, or it crashes
+    for args in (False, True):
+        ops1 = [("E", 0, 1010, 1, 2), ("E", 1 if args else 7, 1020, 3, 4), ("E", 8, 1030, 0, 0), ("X", 1040, 0)]
+        ops2 = [("E", 0, 2010, 1, 2), ("E", 3 if args else 10, 2020, 5, 6), ("X", 2030, 7), ("E", 11, 2040, 0, 0)]
+        for cap in (48, 4080):
+            for n2, mode, e in ((1, "kill", 0), (1, "kill", 1), (1, "kill", 2), (3, "kill", 1), (4, "segv", None), (4, "exit", None)):
+                if ctx.n(0, 1) == 0 and cap == 4080 and (mode == "exit" or e == 2):
+                    continue        # (quick tier: a subset)
+                cases.append({"cap": cap, "args": args, "mode": mode, "ops": ops1, "sync": [False, False, cap == 48, False],
+                              "e": e, "end": None, "close": None, "ops2": ops2[:n2], "sync2": [False, True, False, False][:n2],
+                              "directed": "exec"})
     # killed inside the thread's very first hook call (mcount_prepare -> prepare_shmem_buffer): before REC_START 0,
     # after the buffer's flag is set, after the call
     for e in (0, 1, 2):
         for k, args in ((0, False), (1, True), (12, False)):
             cases.append({"cap": 64, "args": args, "mode": "kill", "ops": [("E", k, 1010, 5, 6)], "sync": [False], "e": e,
                           "end": None, "close": None, "directed": "first-hook-call"})
-    for _ in range(ctx.n(70, 1200)):
+    for _ in range(ctx.n(34, 800)):
         cases.append(gen_case(rng))
     return cases
 
@@ -389,7 +435,7 @@ def run_store(ctx, objdir):
         results = list(ex.map(lambda ic: run_case(rec_exe, prod_exe, work, ic[1], ic[0]), enumerate(cases)))
     ctx.log("store-level tie: %d producer runs in %.1fs" % (len(cases), time.time() - t0))
     good_c, good_r = [], []
-    ret_exe = rec_exe
+    ret_exe = (rec_exe, prod_exe, f0)
     for c, r in zip(cases, results):
         if r.get("error"):
             ctx.broken("store-level harness failed on a case: %s" % r["error"], json.dumps(case_json(c))[:2000])
@@ -423,6 +469,8 @@ def run_store(ctx, objdir):
             tags.append("store:recording-ends-by-" + c["end"])
         if c.get("close") is not None:
             tags.append("store:pipe-closed-by-another-thread")
+        if c.get("ops2"):
+            tags.append("store:exec-second-image(TASK_START,flush_old_shmem)")
         ctx.case(key=("store", json.dumps(case_json(c), sort_keys=True)), nontrivial=len(r["file"]) > 0, tags=tags,
                  size=len(c["ops"]), sample=case_json(c, r) if len(ctx.samples) < 2 and nrec > 2 else None)
     store_verdict(ctx, good_c, good_r, res, f0)
@@ -438,10 +486,159 @@ def store_verdict(ctx, cases, results, res, f0):
         i = res["mismatch"][0]
         ctx.violation("model and implementation disagree on the shm/recorder protocol (%d cases); the property "
                       "checker accepts the implementation's files" % len(res["mismatch"]),
-                      {"line": "store", "correspondence": "C04.Model (pstep/rstep/wstep/finish) vs libmcount/record.c + "
+                      {"line": "store", "correspondence": "C04.Model (pstep/rstep/wstep/finish; abstract and faithful machine) vs libmcount/record.c + "
                        "cmds/record.c", "first_disagreement": case_json(cases[i], results[i]),
                        "model_expects(shl, flags, wl, file)": model_obs(ctx, cases[i], results[i], f0)}, False)
     ctx.extra["store_disagreements"] = len(res["mismatch"])
+
+
+# ------------------------------------------------------------------ (A2) two producers, one recorder
+def gen_ops(rng, with_args, nops):
+    ops, stack, t = [], [], 1000 + rng.randrange(500)
+    for _ in range(nops):
+        t += rng.randrange(1, 50)
+        if stack and (rng.random() < 0.45 or len(stack) >= 6 or stack[-1] in NOTRACE):
+            stack.pop()
+            ops.append(("X", t, rng.randrange(1 << 40)))
+        else:
+            k = rng.choice([x for x in range(NFUNC) if x != FINISH_FN]) if with_args else rng.choice([0, 7, 8, 10, 11, 12])
+            stack.append(k)
+            ops.append(("E", k, t, rng.randrange(1 << 48), rng.randrange(1 << 32)))
+    return ops
+
+
+def gen_multi_case(rng):
+    with_args = rng.random() < 0.5
+    cap = rng.choice([32, 48, 64, 64, 96, 4080])
+    opss = [gen_ops(rng, with_args, rng.randrange(1, 14)) for _ in range(2)]
+    left = [len(o) for o in opss]
+    acts = []
+    killed = None
+    while left[0] + left[1] > 0:
+        x = rng.random()
+        if x < 0.2:
+            acts.append(("R",))
+            continue
+        i = rng.randrange(2)
+        if left[i] == 0:
+            i = 1 - i
+        if killed is None and rng.random() < 0.12:
+            acts.append(("K", i, rng.randrange(0, 6)))
+            killed = i
+            left[i] = 0                 # the rest of its history never happens
+        else:
+            acts.append(("P", i))
+            left[i] -= 1
+    return {"cap": cap, "args": with_args, "opss": opss, "acts": acts}
+
+
+def multi_script(ops):
+    lines = ["S"]
+    for o in ops:
+        lines.append("E %d %d %d %d" % (o[1], o[2], o[3], o[4]) if o[0] == "E" else "X %d %d" % (o[1], o[2]))
+        lines.append("S")
+    lines.append("EXIT")
+    return lines
+
+
+def run_multi_case(rec_exe, prod_exe, workdir, c, idx):
+    d = os.path.join(workdir, "m%d" % idx)
+    shutil.rmtree(d, ignore_errors=True)
+    os.makedirs(d)
+    scripts = []
+    for i, ops in enumerate(c["opss"]):
+        f = os.path.join(d, "script%d.txt" % i)
+        open(f, "w").write("\n".join(multi_script(ops)) + "\n")
+        scripts.append(f)
+    acts = ["R" if a[0] == "R" else "P%d" % a[1] if a[0] == "P" else "K%d:%d" % (a[1], a[2]) for a in c["acts"]]
+    env = {k: v for k, v in os.environ.items() if not k.startswith("UFTRACE_")}
+    env.update(prod_env(c["args"]))
+    try:
+        p = subprocess.run(["timeout", "60", rec_exe, "multi", d, str(c["cap"] + 16), prod_exe] + scripts + acts,
+                           env=env, capture_output=True, text=True, timeout=90)
+    except subprocess.TimeoutExpired:
+        return {"error": "timeout"}
+    res = {"files": {}}
+    for l in p.stdout.splitlines():
+        k = l.split()
+        if l.startswith("SHL"):
+            res["shl"] = [tuple(int(x) for x in e.split(":")) for e in k[1:]]
+        elif l.startswith("WL"):
+            res["wl"] = [tuple(int(x) for x in e.split(":")) for e in k[1:]]
+        elif l.startswith("FILE"):
+            res["files"][int(k[0][4:])] = bytes.fromhex(k[1]) if len(k) > 1 else b""
+    shutil.rmtree(d, ignore_errors=True)
+    if "shl" not in res or "wl" not in res or len(res["files"]) != 2:
+        res["error"] = "no result (rc=%s): %s" % (p.returncode, p.stderr[-300:])
+    return res
+
+
+def coq_mcase(c, r, f0):
+    def acts():
+        return "; ".join("AR" if a[0] == "R" else "AP %d" % a[1] if a[0] == "P" else "AK %d %d" % (a[1], a[2]) for a in c["acts"])
+    opss = "; ".join(coq_ops({"ops": ops, "args": c["args"]}, f0) for ops in c["opss"])
+    return ("{| mc_cap := %d; mc_ops := [%s]; mc_acts := [%s]; mc_shl := [%s]; mc_wl := [%s]; mc_files := [%s] |}" % (
+        c["cap"], opss, acts(), "; ".join("(%d, %d, %d%%N)" % t for t in r["shl"]),
+        "; ".join("(%d, %d)" % t for t in r["wl"]), "; ".join(coq_bytes(r["files"][i]) for i in (0, 1))))
+
+
+def multi_json(c, r=None):
+    j = {"cap": c["cap"], "args": c["args"], "opss": [[list(o) for o in ops] for ops in c["opss"]], "acts": [list(a) for a in c["acts"]]}
+    if r is not None:
+        j["impl"] = {"shl": r.get("shl"), "wl": r.get("wl"), "files": [r["files"][i].hex() for i in (0, 1)] if len(r.get("files", {})) == 2 else None}
+    return j
+
+
+def eval_multi(ctx, cases, results, f0, name="cases_multi"):
+    defs = "Definition mcases : list mcase := [\n%s\n].\n" % ";\n".join(coq_mcase(c, r, f0) for c, r in zip(cases, results))
+    res = coq.run_cases(ctx, name, PRE, defs, [("mismatch", "bad_indices magrees mcases 0"),
+                                               ("violations", "bad_indices mok_case mcases 0")])
+    return None if res is None else {k: coq.parse_nat_list(v) for k, v in res.items()}
+
+
+def multi_verdict(ctx, cases, results, res):
+    for i in res["violations"][:3]:
+        ctx.violation("C04 violated (two producers, one recorder): a data file left after the tracees died is not a "
+                      "whole-record prefix of what that task executed", {"line": "multi", "case": multi_json(cases[i], results[i])}, True)
+    if res["mismatch"] and not res["violations"]:
+        i = res["mismatch"][0]
+        ctx.violation("multi-thread model and implementation disagree on the recorder's shared lists (%d cases); the "
+                      "property checker accepts the implementation's files" % len(res["mismatch"]),
+                      {"line": "multi", "correspondence": "C04.Model mst / mstep / mfinish vs cmds/record.c with two producers",
+                       "first_disagreement": multi_json(cases[i], results[i])}, False)
+    ctx.extra["multi_disagreements"] = len(res["mismatch"])
+
+
+def run_multi(ctx, rec_exe, prod_exe, f0):
+    rng = ctx.rng
+    cases = [gen_multi_case(rng) for _ in range(ctx.n(20, 160))]
+    work = os.path.join(ctx.scratch, "multi")
+    os.makedirs(work, exist_ok=True)
+    t0 = time.time()
+    with concurrent.futures.ThreadPoolExecutor(max_workers=8) as ex:
+        results = list(ex.map(lambda ic: run_multi_case(rec_exe, prod_exe, work, ic[1], ic[0]), enumerate(cases)))
+    ctx.log("two-producer tie: %d runs in %.1fs" % (len(cases), time.time() - t0))
+    gc, gr = [], []
+    for c, r in zip(cases, results):
+        if r.get("error"):
+            ctx.broken("two-producer harness failed on a case: %s" % r["error"], json.dumps(multi_json(c))[:2000])
+            continue
+        gc.append(c)
+        gr.append(r)
+        tags = ["multi:cap=%d" % c["cap"]]
+        if any(a[0] == "K" for a in c["acts"]):
+            tags.append("multi:one-killed-inside-a-hook-call")
+        if any(a[0] == "R" for a in c["acts"]):
+            tags.append("multi:recorder-interleaved")
+        if len(set(t[0] for t in r["wl"])) == 2:
+            tags.append("multi:both-tids-queued-at-the-end")
+        ctx.case(key=("multi", json.dumps(multi_json(c), sort_keys=True)), nontrivial=any(r["files"].values()), tags=tags,
+                 size=len(c["acts"]))
+    if not gc:
+        return
+    res = eval_multi(ctx, gc, gr, f0)
+    if res is not None:
+        multi_verdict(ctx, gc, gr, res)
 
 
 # ------------------------------------------------------------------ (B) liveness tie
@@ -668,7 +865,9 @@ def live_verdict(ctx, hists, res):
 
 # ------------------------------------------------------------------ (C) end to end
 MAXEV = 4096
-HOWS = {"sigkill": 0, "segv": 1, "abort": 2, "_exit": 3, "execv": 4, "exit": 5, "sigusr1": 6, "none": 9}
+HOWS = {"sigkill": 0, "segv": 1, "abort": 2, "_exit": 3, "execv": 4, "exit": 5, "sigusr1": 6, "sigterm": 7, "sigfpe": 8,
+        "none": 9, "exec_fail": 10, "fork": 11, "fork_parent_killed": 12, "fork_child_killed": 13, "loop": 14,
+        "fork_child_exec": 15}
 
 PROG_HEAD = r"""
 #define _GNU_SOURCE
@@ -688,6 +887,7 @@ struct tlog { volatile unsigned tid; volatile unsigned n; volatile unsigned ev[M
 static struct tlog *L;
 static __thread struct tlog *my;
 static int kill_th = -1, kill_at = -1, how = 9;
+static volatile int quiet;
 static char *self_argv[6];
 NOI static void die(void)
 {
@@ -699,13 +899,37 @@ NOI static void die(void)
 	case 4: execv(self_argv[0], self_argv); break;        /* the same traced program, in the same task */
 	case 5: exit(4); break;
 	case 6: raise(SIGUSR1); break;                       /* --signal SIGUSR1@finish: the program goes on */
+	case 7: kill(getpid(), SIGTERM); break;
+	case 8: raise(SIGFPE); break;
+	case 10: { char *a[] = { "/nonexistent/c04-prog", 0 }; execv(a[0], a); } break;   /* fails: the program goes on */
+	case 11: case 12: case 13: {
+		pid_t p = fork();
+		kill_th = -1;                                /* once */
+		if (p == 0) {                                /* the child goes on in its own log slot */
+			my = &L[NTH + 1]; my->n = 0; my->tid = syscall(SYS_gettid);
+			if (how == 13) kill(getpid(), SIGKILL);
+		}
+		else if (p > 0 && how == 12)
+			kill(getpid(), SIGKILL);
+		break;
+	}
+	case 15: {                                           /* fork, the child exec()s the traced program at once */
+		pid_t p = fork();
+		kill_th = -1;
+		if (p == 0) {
+			my = &L[NTH + 1]; my->n = 0; my->tid = syscall(SYS_gettid);
+			execv(self_argv[0], self_argv);
+			_exit(9);
+		}
+		break;
+	}
 	}
 }
 NOI static void LOG(int x, int k)
 {
 	struct tlog *t = my;
 	unsigned n;
-	if (!t) return;
+	if (!t || quiet) return;
 	n = t->n;
 	if (n >= MAXEV) return;
 	t->ev[n] = x * 256 + k;
@@ -720,7 +944,7 @@ static void *worker(void *arg)
 {
 	long i = (long)arg;
 	attach(i);
-	root(i);
+	do { root(i); if (how == 14) usleep(2000); } while (how == 14);
 	return 0;
 }
 int main(int argc, char **argv)
@@ -728,8 +952,8 @@ int main(int argc, char **argv)
 	pthread_t th[NTH + 1];
 	long i;
 	int fd = open(argv[1], O_RDWR | O_CREAT | O_TRUNC, 0600);
-	if (fd < 0 || ftruncate(fd, sizeof(struct tlog) * (NTH + 1)) < 0) return 9;
-	L = mmap(0, sizeof(struct tlog) * (NTH + 1), PROT_READ | PROT_WRITE, MAP_SHARED, fd, 0);
+	if (fd < 0 || ftruncate(fd, sizeof(struct tlog) * (NTH + 2)) < 0) return 9;
+	L = mmap(0, sizeof(struct tlog) * (NTH + 2), PROT_READ | PROT_WRITE, MAP_SHARED, fd, 0);
 	kill_th = atoi(argv[2]); kill_at = atoi(argv[3]); how = atoi(argv[4]);
 	if (argc >= 9) {	/* second stage after execv: <log2> <th2> <at2> <how2> */
 		self_argv[0] = argv[0]; self_argv[1] = argv[5]; self_argv[2] = argv[6];
@@ -739,8 +963,9 @@ int main(int argc, char **argv)
 		self_argv[0] = "/bin/true"; self_argv[1] = 0;
 	}
 	attach(0);
+	if (how == 14) quiet = 1;                            /* run until killed from outside; nothing is logged */
 	for (i = 1; i <= NTH; i++) pthread_create(&th[i], 0, worker, (void *)i);
-	root(0);
+	do { root(0); if (how == 14) usleep(2000); } while (how == 14);
 	for (i = 1; i <= NTH; i++) pthread_join(th[i], 0);
 	root(0);
 	return 0;
@@ -783,7 +1008,9 @@ def read_log(path, nth):
     b = open(path, "rb").read()
     sz = 8 + 4 * MAXEV
     logs = []
-    for i in range(nth + 1):
+    for i in range(nth + 2):
+        if (i + 1) * sz > len(b):
+            break
         tid, n = struct.unpack_from("<II", b, i * sz)
         evs = struct.unpack_from("<%dI" % min(n, MAXEV), b, i * sz + 8)
         logs.append((tid, [(e >> 8, e & 255) for e in evs]))
@@ -829,8 +1056,11 @@ def e2e_run(uft, objdir, prog, work, idx, case):
     if st2:
         cmd += [logf + "2", str(st2["th"]), str(st2["at"]), str(HOWS[st2["how"]])]
     t0 = time.time()
-    p = subprocess.run(cmd, capture_output=True, text=True, cwd=d)
-    ob = {"rc": p.returncode, "wall": time.time() - t0, "stderr": p.stderr[-300:]}
+    if case.get("async_kill") is not None:
+        p = async_kill_run(cmd, d, os.path.basename(prog["exe"]), case["async_kill"])
+    else:
+        p = subprocess.run(cmd, capture_output=True, text=True, cwd=d)
+    ob = {"rc": p.returncode, "wall": time.time() - t0, "stderr": (p.stderr or "")[-300:]}
     if p.returncode in (124, 137, -9):
         ob["timeout"] = True
         E2E_TIMEOUTS.append(idx)
@@ -844,32 +1074,127 @@ def e2e_run(uft, objdir, prog, work, idx, case):
     for tid, _ in ob["logs"] + ob["logs2"]:
         f = os.path.join(data, "%d.dat" % tid)
         ob["dat"][tid] = open(f, "rb").read() if (tid and os.path.exists(f)) else b""
+    for f in ob["files"]:                  # data files of tasks the program did not log (none expected)
+        m = re.fullmatch(r"(\d+)\.dat", f)
+        if m and int(m.group(1)) not in ob["dat"]:
+            ob["dat"][int(m.group(1))] = open(os.path.join(data, f), "rb").read()
     ob["analysis"] = {}
     for c in (["replay"], ["report"], ["dump"]):
+        if c[0] == "report" and case.get("light"):
+            continue                       # (quick tier: `report` on every second run only)
         rc, out, err = sh(["timeout", "60", uft] + c + ["--no-pager", "-d", data], timeout=70)
         ob["analysis"][c[0]] = (rc, (err or "")[-200:])
+        if c[0] == "dump" and rc == 0:
+            ob["dump"] = parse_dump(out)
+    ob["info_tids"], ob["task_tids"], ob["nsess"] = read_task_lists(data)
     ob["shm_left"] = clean_shm(data)
     shutil.rmtree(d, ignore_errors=True)
     return ob
 
 
-def coq_ecase(ftab, nt, maxd, log1, log2, dat, crash1, crash2, nest):
+def async_kill_run(cmd, d, exe_name, delay_ms):
+    """start `uftrace record`, wait for the tracee to run its own image, SIGKILL it from outside after delay_ms"""
+    p = subprocess.Popen(cmd, stdout=subprocess.PIPE, stderr=subprocess.PIPE, text=True, cwd=d)
+    # cmd[0..2] = timeout -s KILL 20: the recorder is timeout's child, the tracee the recorder's
+    victim, t0 = None, time.time()
+    while victim is None and time.time() - t0 < 10 and p.poll() is None:
+        try:
+            kids = open("/proc/%d/task/%d/children" % (p.pid, p.pid)).read().split()
+            for k in kids:
+                for g in open("/proc/%s/task/%s/children" % (k, k)).read().split():
+                    if open("/proc/%s/comm" % g).read().strip() == exe_name[:15]:
+                        victim = int(g)
+        except OSError:
+            pass
+        if victim is None:
+            time.sleep(0.002)
+    # in scope is a kill at or after the first traced event: wait until the recorder has seen the session
+    # (a tracee that dies before libmcount finished starting up leaves no maps / task list: `record` then ends
+    # with "cannot find map files" - before the first traced event, outside the property's quantifier)
+    data = cmd[cmd.index("-d") + 1]
+    t1 = time.time()
+    while victim is not None and time.time() - t1 < 5 and p.poll() is None:
+        try:
+            if os.path.getsize(os.path.join(data, "task.txt")) > 0:
+                break
+        except OSError:
+            pass
+        time.sleep(0.0005)
+    if victim is not None:
+        time.sleep(delay_ms / 1000.0)
+        try:
+            os.kill(victim, 9)
+        except OSError:
+            pass
+    try:
+        out, err = p.communicate(timeout=40)
+    except subprocess.TimeoutExpired:
+        p.kill()
+        out, err = p.communicate()
+    p.stdout_text, p.stderr = out, err
+    return p
+
+
+def parse_dump(out):
+    """`uftrace dump` text -> {tid: [(0 entry | 1 exit, addr, depth), ...]}"""
+    res = {}
+    for l in out.splitlines():
+        m = re.match(r"\s*[\d.]+\s+(\d+): \[(entry|exit )\] .*\(([0-9a-f]+)\) depth: (\d+)", l)
+        if m:
+            res.setdefault(int(m.group(1)), []).append((0 if m.group(2) == "entry" else 1, int(m.group(3), 16), int(m.group(4))))
+    return res
+
+
+def read_task_lists(data):
+    info_tids, task_tids, nsess = set(), set(), 0
+    try:
+        for l in open(os.path.join(data, "info"), "rb").read().split(b"\n"):
+            if l.startswith(b"taskinfo:tids="):
+                info_tids = set(int(x) for x in l[14:].decode().split(",") if x.strip())
+        for l in open(os.path.join(data, "task.txt")).read().splitlines():
+            if l.startswith("SESS"):
+                nsess += 1
+            m = re.match(r"TASK .* tid=(\d+) ", l + " ")
+            if m:
+                task_tids.add(int(m.group(1)))
+            m = re.match(r"FORK .* pid=(\d+) ", l + " ")
+            if m:
+                task_tids.add(int(m.group(1)))
+    except OSError:
+        pass
+    return info_tids, task_tids, nsess
+
+
+def decode_py(dat):
+    """ENTRY/EXIT records of a data file as the dump shows them: (type, addr, depth)"""
+    out = []
+    for off in range(0, len(dat) - 15, 16):
+        t, w = struct.unpack_from("<QQ", dat, off)
+        if (w & 3) in (0, 1):
+            out.append((w & 3, w >> 16, (w >> 6) & 0x3ff))
+    return out
+
+
+def coq_ecase(ftab, nt, maxd, log1, log2, dat, crash1, crash2, nest, free=False):
     def evs(l):
         return "[" + "; ".join("(%d, %d)" % e for e in l) + "]%N"
     return ("{| e_ftab := [%s]%%N; e_nt := %s; e_maxd := %d; e_log1 := %s; e_log2 := %s; e_bytes := %s; "
-            "e_crash1 := %s; e_crash2 := %s; e_nest := %s |}" % (
+            "e_crash1 := %s; e_crash2 := %s; e_nest := %s; e_free := %s |}" % (
                 "; ".join("(%d, %d)" % t for t in ftab), coq_bytes(nt), maxd, evs(log1), evs(log2),
-                coq_bytes(dat), coq.coq_bool(crash1), coq.coq_bool(crash2), coq.coq_bool(nest)))
+                coq_bytes(dat), coq.coq_bool(crash1), coq.coq_bool(crash2), coq.coq_bool(nest), coq.coq_bool(free)))
 
 
-def run_e2e(ctx, objdir):
-    rng = ctx.rng
+def run_e2e(ctx, objdir, out=None):
+    """generate programs, do the traced runs, judge; with `out` (quick tier: in a side thread, next to the store-level
+    ties) only the runs are done here and the caller judges later"""
+    import random
+    rng = random.Random(ctx.subseed("e2e"))
     del E2E_TIMEOUTS[:]
     uft = os.path.join(objdir, "uftrace")
     work = os.path.join(ctx.scratch, "e2e")
     os.makedirs(work)
     progs = []
-    for pi in range(ctx.n(3, 12)):
+    for pi in range(ctx.n(3, 9)):
         nth = [0, 2, 1, 3][pi % 4]
         big = (pi % 3 == 2)
         for attempt in range(40):
@@ -882,17 +1207,19 @@ def run_e2e(ctx, objdir):
             sh(["timeout", "20", exe, full, "-1", "-1", "9"], check=True, cwd=work)      # (-pg: gmon.out goes to cwd)
             logs = read_log(full, nth)
             most = max(len(l) for _, l in logs)
-            if (350 <= most <= 700) if big else (6 <= most <= 300):
+            if (300 <= most <= 480) if big else (6 <= most <= 250):
                 break
         progs.append({"exe": exe, "nth": nth, "nf": nf, "ftab": func_table(exe, nf), "full": logs,
                       "src": src, "id": pi, "big": big})
     cases = []
-    hows = ["sigkill", "segv", "abort", "_exit", "execv", "exit", "finish", "sigfinish"]
-    per = ctx.n(16, 48)
+    hows = ["sigkill", "segv", "abort", "_exit", "execv", "exit", "finish", "sigfinish",
+            "sigterm", "sigfpe", "exec_untraced", "exec_fail", "fork", "fork_parent_killed", "fork_child_killed", "async_kill",
+            "fork_child_exec"]
+    per = ctx.n(17, 34)
     for pr in progs:
         for j in range(per):
             how = hows[j % len(hows)]
-            if how == "execv" and pr.get("big"):
+            if how in ("execv", "async_kill") and pr.get("big"):
                 how = "sigkill"         # (the two-image split check is quadratic in the number of records)
             th = rng.randrange(pr["nth"] + 1)
             total = len(pr["full"][th][1])
@@ -927,12 +1254,42 @@ def run_e2e(ctx, objdir):
             if how == "sigfinish":
                 # signal trigger: the handler only sets the finish flag; every thread stops recording at its next hook
                 case.update({"how": "sigusr1", "sigfinish": True, "opts": opts + ["--signal", "SIGUSR1@finish"]})
+            if how == "exec_untraced":
+                case.update({"how": "execv", "kind": "exec_untraced", "th": 0,
+                             "at": rng.randrange(max(1, len(pr["full"][0][1])))})      # no stage 2: /bin/true
+            if how in ("fork", "fork_parent_killed", "fork_child_killed"):
+                case.update({"kind": how, "th": 0, "at": rng.randrange(max(1, len(pr["full"][0][1])))})
+            if how == "fork_child_exec":
+                # fork + exec, the common way: the child's tid is known to the recorder through FORK_START/FORK_END (with
+                # the PARENT's pid), its first buffer is announced, then the new image's REC_START and TASK_START come
+                # (flush_old_shmem); small buffers make the new image switch buffers
+                h2 = rng.choice(["none", "segv", "sigkill", "abort"])
+                t0n = len(pr["full"][0][1])
+                case.update({"kind": how, "th": 0, "at": rng.randrange(max(1, t0n)),
+                             "opts": rng.choice([["-b", "4k"], ["-b", "4k"], []]),
+                             "stage2": {"how": h2, "th": 0 if h2 != "none" else -1,
+                                        "at": rng.randrange(t0n) if (t0n and h2 != "none") else -1}})
+            if how == "async_kill":
+                # SIGKILL from outside at an arbitrary instant (not at a traced event) while every thread loops
+                case.update({"how": "loop", "kind": "async_kill", "th": -1, "at": -1,
+                             "async_kill": rng.choice([0, 1, 2, 3]), "opts": rng.choice([[], ["-b", "4k"], ["-b", "4k"]])})
+            case["light"] = (not ctx.thorough()) and len(cases) % 2 == 1
             cases.append(case)
     t0 = time.time()
     with concurrent.futures.ThreadPoolExecutor(max_workers=6) as ex:
         obs = list(ex.map(lambda ic: e2e_run(uft, objdir, progs[ic[1]["prog"]], work, ic[0], ic[1]), enumerate(cases)))
     ctx.log("end-to-end: %d traced runs in %.1fs" % (len(cases), time.time() - t0))
+    if out is not None:
+        out["res"] = (progs, cases, obs)
+        return
     e2e_judge(ctx, progs, cases, obs)
+
+
+def run_e2e_side(ctx, objdir, out):
+    try:
+        run_e2e(ctx, objdir, out)
+    except Exception as ex:          # reported by the main thread
+        out["error"] = "%s: %s" % (type(ex).__name__, str(ex)[:400])
 
 
 def e2e_judge(ctx, progs, cases, obs):
@@ -946,7 +1303,7 @@ def e2e_judge(ctx, progs, cases, obs):
     for ci, (case, ob) in enumerate(zip(cases, obs)):
         pr = progs[case["prog"]]
         rj = {"line": "e2e", "case": case, "program": pr["src"]}
-        how = "finish" if "finish" in case else "sigfinish" if case.get("sigfinish") else case["how"]
+        how = "finish" if "finish" in case else "sigfinish" if case.get("sigfinish") else case.get("kind") or case["how"]
         tags = ["e2e:how=" + how, "e2e:threads=%d" % (pr["nth"] + 1)] + ["e2e:opt=" + o for o in case["opts"] if o.startswith("-") and o not in ("-T", "--signal")]
         if ob.get("skipped"):
             continue
@@ -980,20 +1337,42 @@ def e2e_judge(ctx, progs, cases, obs):
         per_tid = {}
         for ti, (tid, log) in enumerate(ob["logs"]):
             if tid:
-                per_tid.setdefault(tid, {"l1": [], "l2": [], "ti": ti, "c1": False, "c2": False})
+                per_tid.setdefault(tid, {"l1": [], "l2": [], "ti": ti, "c1": False, "c2": False, "free": False})
                 per_tid[tid]["l1"] = pr["full"][ti][1] if how in ("finish", "sigfinish") else log
                 per_tid[tid]["c1"] = how in ("segv", "abort") and ti == case["th"]
+                if how == "async_kill":
+                    # every thread repeats its root() for ever: the reference is that sequence, repeated
+                    one = pr["full"][ti][1]
+                    if ti == 0:
+                        one = one[:len(one) // 2]          # (the dry run's main thread ran root(0) twice)
+                    need = len(ob["dat"].get(tid, b"")) // 16 + 1
+                    per_tid[tid]["l1"] = one * (need // max(1, len(one)) + 1) if one else []
+                if ti == pr["nth"] + 1:
+                    per_tid[tid]["free"] = True            # the forked child starts with inherited open calls
         for ti, (tid, log) in enumerate(ob.get("logs2", [])):
             if tid:
-                per_tid.setdefault(tid, {"l1": [], "l2": [], "ti": ti, "c1": False, "c2": False})
+                per_tid.setdefault(tid, {"l1": [], "l2": [], "ti": ti, "c1": False, "c2": False, "free": False})
                 per_tid[tid]["l2"] = log
                 per_tid[tid]["c2"] = st2["how"] in ("segv", "abort") and ti == st2["th"]
         for tid, pt in sorted(per_tid.items()):
             dat = ob["dat"].get(tid, b"")
             nrec += len(dat) // 16
             ecases.append(coq_ecase(pr["ftab"], case.get("nt", []), case.get("maxd", 1 << 20), pt["l1"], pt["l2"], dat,
-                                    pt["c1"], pt["c2"], how != "execv"))
+                                    pt["c1"], pt["c2"], how not in ("execv", "exec_untraced", "fork_child_exec") and not pt["free"], pt["free"]))
             owner.append((ci, pt["ti"], tid))
+        # the task list and the readers' view of every data file
+        for tid, dat in sorted(ob["dat"].items()):
+            if not dat:
+                continue
+            if tid not in ob.get("info_tids", ()) or tid not in ob.get("task_tids", ()):
+                viol("tasklist", "C04 violated: task list incomplete after the tracee %s: %d.dat exists but tid %d is missing in %s"
+                     % (how, tid, tid, "info (taskinfo:tids)" if tid not in ob.get("info_tids", ()) else "task.txt"),
+                     dict(rj, info_tids=sorted(ob.get("info_tids", ())), task_tids=sorted(ob.get("task_tids", ()))))
+            if "dump" in ob and ob["dump"].get(tid, []) != decode_py(dat):
+                viol("dump", "C04 violated: `uftrace dump` does not show the records of %d.dat as they are in the file "
+                     "(%d shown, %d in the file) after the tracee %s" % (tid, len(ob["dump"].get(tid, [])), len(decode_py(dat)), how), rj)
+        if any(tid not in per_tid for tid, dat in ob["dat"].items() if dat):
+            tags.append("e2e:data-file-of-unlogged-task")
         if st2:
             tags.append("e2e:exec-self,second-image-" + st2["how"])
             if any(pt["l1"] and pt["l2"] for pt in per_tid.values()):
@@ -1006,18 +1385,27 @@ def e2e_judge(ctx, progs, cases, obs):
             tags.append("e2e:buffer-switched")
         if ob.get("shm_left"):
             tags.append("e2e:shm-objects-left-behind-by-record")
+        ctx.extra.setdefault("e2e_records_by_kind", {})
+        ctx.extra["e2e_records_by_kind"][how] = ctx.extra["e2e_records_by_kind"].get(how, 0) + nrec
         ctx.case(key=("e2e", pr["src"], repr(case)), nontrivial=nrec > 0, tags=tags, size=nrec,
                  sample={"e2e_case": case, "records": nrec} if ci == 0 else None)
     if not ecases:
         return
-    defs = "Definition ecases : list ecase := [\n%s\n].\n" % ";\n".join(ecases)
-    res = coq.run_cases(ctx, "cases_e2e", PRE, defs, [("violations", "bad_indices ok_e2e ecases 0")])
-    if res is None:
-        return
-    for i in coq.parse_nat_list(res["violations"])[:3]:
+    bad = []
+    CH = 120                                   # (one coqc per batch: big literal files cost more than linearly)
+
+    def batch(b0):
+        defs = "Definition ecases : list ecase := [\n%s\n].\n" % ";\n".join(ecases[b0:b0 + CH])
+        return b0, coq.run_cases(ctx, "cases_e2e_%d" % (b0 // CH), PRE, defs, [("violations", "bad_indices ok_e2e ecases 0")])
+    with concurrent.futures.ThreadPoolExecutor(max_workers=3) as ex:
+        for b0, res in ex.map(batch, range(0, len(ecases), CH)):
+            if res is None:
+                return
+            bad += [b0 + i for i in coq.parse_nat_list(res["violations"])]
+    for i in bad[:3]:
         ci, ti, tid = owner[i]
         case, ob = cases[ci], obs[ci]
-        how = "finish" if "finish" in case else "sigfinish" if case.get("sigfinish") else case["how"]
+        how = "finish" if "finish" in case else "sigfinish" if case.get("sigfinish") else case.get("kind") or case["how"]
         ctx.violation("C04 violated (end to end): %d.dat (thread %d) left after the tracee %s is not made of whole records "
                       "forming a prefix of what the thread executed%s" % (
                           tid, ti, how, " / misses open calls of the crashing thread" if how in ("segv", "abort") else ""),
@@ -1143,9 +1531,6 @@ def common_meta(ctx):
         "shm allocation never fails and no record is lost (C03 covers LOST); no filters/triggers besides argument "
         "specs, -N functions and the finish / signal triggers (C05); one thread per data file in the model (threads are "
         "exercised end to end only)",
-        "after the message pipe was closed, a thread that moves on to a buffer the recorder never hears of is abstracted "
-        "to a `dark` state: its later stores are not modelled (the tie checks on the real code that they do not reach "
-        "the data file)",
         "a record fits into an empty buffer (the code does not re-check after switching buffers)",
         "stores become visible to the recorder in program order (x86-TSO; the recorder reads after the tracee died)",
         "the kernel delivers POLLHUP / SIGCHLD and /proc/<tid>/stat eventually shows every dead task (oracle `dead`)",
@@ -1162,12 +1547,24 @@ def run(ctx):
     fw = {}
     th = threading.Thread(target=fork_fail_e2e, args=(ctx, objdir, fw))
     th.start()
+    e2e_out, th2 = {}, None
+    if not ctx.thorough():
+        th2 = threading.Thread(target=run_e2e_side, args=(ctx, objdir, e2e_out))
+        th2.start()
     try:
-        rec_exe = run_store(ctx, objdir)
+        rec_exe, prod_exe, f0 = run_store(ctx, objdir)
+        run_multi(ctx, rec_exe, prod_exe, f0)
         run_live(ctx, rec_exe)
     except RuntimeError as ex:       # e.g. the harness no longer compiles against cmds/record.c: keep searching end to end
         ctx.broken("store-level / liveness tie could not run: %s" % str(ex)[:300], str(ex))
-    run_e2e(ctx, objdir)
+    if th2 is None:
+        run_e2e(ctx, objdir)
+    else:
+        th2.join()
+        if "res" in e2e_out:
+            e2e_judge(ctx, *e2e_out["res"])
+        else:
+            ctx.broken("end-to-end runs failed: %s" % e2e_out.get("error", "?"))
     th.join()
     fork_fail_verdict(ctx, fw)
 
@@ -1192,6 +1589,21 @@ def replay(ctx, obj):
         ctx.log("model expects", (model_obs(ctx, c, r, f0) or "")[:400])
         if res is not None:
             store_verdict(ctx, [c], [r], res, f0)
+    elif obj.get("line") == "multi":
+        j = obj.get("case") or obj.get("first_disagreement")
+        c = {"cap": j["cap"], "args": j["args"], "opss": [[tuple(o) for o in ops] for ops in j["opss"]],
+             "acts": [tuple(a) for a in j["acts"]]}
+        rec_exe, prod_exe, f0 = build_store(ctx, objdir)
+        work = os.path.join(ctx.scratch, "multi")
+        os.makedirs(work, exist_ok=True)
+        r = run_multi_case(rec_exe, prod_exe, work, c, 0)
+        if r.get("error"):
+            ctx.broken("two-producer harness failed on the replayed case: %s" % r["error"])
+            return
+        ctx.case(key="replay", sample=multi_json(c, r))
+        res = eval_multi(ctx, [c], [r], f0, "replay_multi")
+        if res is not None:
+            multi_verdict(ctx, [c], [r], res)
     elif obj.get("line") == "e2e":
         src, case = obj["program"], dict(obj["case"])
         nth = int(re.search(r"#define NTH (\d+)", src).group(1))
